@@ -230,6 +230,37 @@ func runC10Race(c *core.Ctx) {
 				}
 			}(c.RNG("race-private", h*1000+int64(p)))
 		}
+		// several goroutines decode the same received bytes (read-only sharing of an input buffer is legitimate)
+		// into values of their own: a decoder that scribbles on its input races with the others
+		sharedWires := [][]byte{validFrameBytes(r, 6), validFrameBytes(r, 0), validFrameBytes(r, 2+r.Intn(4)), validFrameBytes(r, 1)}
+		sharedID := r.Bytes(16)
+		for p := 0; p < 3; p++ {
+			wg.Add(1)
+			go func() {
+				defer wg.Done()
+				<-start
+				for i := 0; i < 6; i++ {
+					for _, w := range sharedWires {
+						var v lorawan.PHYPayload
+						v.UnmarshalBinary(w)
+						var ja lorawan.JoinAcceptPayload
+						if len(w) >= 17 {
+							ja.UnmarshalBinary(false, w[1:13])
+						}
+					}
+					var e lorawan.EUI64
+					var n lorawan.NetID
+					var a lorawan.DevAddr
+					var k lorawan.AES128Key
+					e.UnmarshalBinary(sharedID[:8])
+					n.UnmarshalBinary(sharedID[:3])
+					a.UnmarshalBinary(sharedID[:4])
+					k.UnmarshalBinary(sharedID)
+					atomic.AddInt64(&privOps, int64(2*len(sharedWires)+4))
+					runtime.Gosched()
+				}
+			}()
+		}
 		// distinct frame values that started life as copies of one decoded template
 		// (var a, b = tmpl, tmpl) are decoded into concurrently
 		var tmpl lorawan.PHYPayload
